@@ -70,6 +70,21 @@ func (c07) Cases(tier string, seed uint64) []fw.Case {
 			}
 		}
 	}
+	// batches larger than any internal slice / chunk / transaction size the implementation might use:
+	// a fault or kill late in such a batch must still leave nothing behind (fault points are sampled,
+	// also in the thorough tier: such a batch issues tens of thousands of storage operations)
+	for r := 0; r < reps; r++ {
+		for _, big := range []struct {
+			kind string
+			size int
+		}{{"insert", 1100 + 300*r}, {"update", 700}, {"delete", 700}} {
+			if r > 0 && big.kind != "insert" {
+				continue
+			}
+			cs = append(cs, fw.Case{Seed: fw.CaseSeed(seed, "C07", i), Name: fmt.Sprintf("%s-%d", big.kind, big.size), Params: map[string]any{"kind": big.kind, "size": big.size, "sample": 24, "kills": 8, "prefix_points": 900}})
+			i++
+		}
+	}
 	return cs
 }
 
@@ -293,7 +308,11 @@ func (c07) RunCase(c fw.Case, env *fw.Env) *fw.CaseResult {
 			op := h.Next(m)
 			if step < 3 {
 				op = gen.Op{Kind: gen.OpInsert, Tag: "prefix-insert"}
-				for i := 0; i < 35; i++ {
+				n := 35
+				if step == 0 {
+					n = max(n, c.Int("prefix_points", 0))
+				}
+				for i := 0; i < n; i++ {
 					op.Points = append(op.Points, model.Point{Id: g.NewId(), Doc: g.Doc()})
 				}
 			}
